@@ -153,6 +153,9 @@ def check_message(L, case, kw, msg, selfobj=None):
         m = re.search(r"(?:^|\n|: )%s was " % ph, msg, re.M)
         if m and not case.get(flag):
             out.append(("C20.R4", "placeholder-line-not-named-by-condition", {"case": case["id"], "placeholder": ph}))
+        if not m and case.get(flag):
+            # "... unless the condition names them": then the placeholder is a value of the condition like any other
+            out.append(("C20.R4", "placeholder-named-by-condition-but-hidden", {"case": case["id"], "placeholder": ph}))
     return out
 
 
@@ -247,6 +250,10 @@ def gen_history(r, L):
             steps.append({"k": "closure", "limits": [r.randint(1, 50), r.randint(1, 50)], "x": r.randint(60, 99)})
         elif x < 0.8:
             steps.append({"k": "noise", "x": -r.randint(1, 100)})
+        elif x < 0.815 and engine == "sync":
+            # the limits of a Repr object are changed after the contracts using it were defined (start-up code adjusting
+            # icontract.aRepr or a shared user Repr): the limits in force at the time of the violation apply
+            steps.append({"k": "arepr", "target": r.choice(["shared", "default"]), "maxlist": r.randint(1, 30), "maxstring": r.randint(8, 120)})
         elif x < 0.84:
             # contracts defined on the spot, violated and dropped, in phases of one kind each, the garbage collected in between
             fc = [c["id"] for c in cases if "factory" in c]
@@ -321,6 +328,26 @@ def run_history(L, h, by_id):
                     del fn
                 if st.get("gc"):
                     gc.collect()  # the checkers refer to themselves: only the cyclic collector frees them
+            return
+        if k == "arepr":
+            rp = L.SHARED_REPR if st["target"] == "shared" else icontract.aRepr
+            fn = L.f67 if st["target"] == "shared" else L.f68
+            saved = (rp.maxlist, rp.maxstring)
+            rp.maxlist, rp.maxstring = st["maxlist"], st["maxstring"]
+            try:
+                try:
+                    fn(xs=list(range(60)), s="q" * 300)
+                    msg = "NO-VIOLATION"
+                except icontract.ViolationError as e:
+                    msg = str(e)
+                ind = reprlib.Repr()
+                if st["target"] == "default":
+                    for a_, v_ in DEFAULT_REPR.items():
+                        setattr(ind, a_, v_)
+                ind.maxlist, ind.maxstring = st["maxlist"], st["maxstring"]
+                results.append(("__arepr__", (st["target"], st["maxlist"], st["maxstring"]), (msg, ind.repr(list(range(60))), ind.repr("q" * 300)), {}))
+            finally:
+                rp.maxlist, rp.maxstring = saved
             return
         if k == "noise":
             try:
@@ -437,6 +464,21 @@ def worker(argv):
                             "rule": "C20.R1",
                             "classifier": "message-depends-on-earlier-violation-of-the-same-condition",
                             "detail": {"case": "closure", "limits": list(order), "second_violation": msg[0][:300], "fresh_twin": msg[1][:300], "history": hi},
+                            "widx": widx,
+                            "history": hi,
+                        }
+                    )
+                continue
+            if cid == "__arepr__":
+                n_msgs += 1
+                mx = re.search(r"^xs was (.*)$", msg[0], re.M)
+                ms_ = re.search(r"^s was (.*)$", msg[0], re.M)
+                if not mx or not ms_ or mx.group(1) != msg[1] or ms_.group(1) != msg[2]:
+                    violations.append(
+                        {
+                            "rule": "C20.R3",
+                            "classifier": "limits-changed-after-definition-not-applied:%s" % order[0],
+                            "detail": {"case": "arepr", "target": order[0], "maxlist": order[1], "maxstring": order[2], "shown_xs": (mx.group(1) if mx else None), "want_xs": msg[1], "shown_s_len": (len(ms_.group(1)) if ms_ else None), "want_s_len": len(msg[2]), "history": hi},
                             "widx": widx,
                             "history": hi,
                         }
